@@ -212,6 +212,11 @@ func (ctx aeadContentCipher) decrypt(key, aad []byte, parts *aeadParts) ([]byte,
 		return nil, err
 	}
 
+	// The IV comes from the untrusted message, while the AEAD panics for a nonce of wrong size.
+	if len(parts.iv) != aead.NonceSize() {
+		return nil, ErrCryptoFailure
+	}
+
 	return aead.Open(nil, parts.iv, append(parts.ciphertext, parts.tag...), aad)
 }
 
